@@ -31,7 +31,9 @@ const ALPHABET: &[char] = &[
     '\u{5d0}', '\u{5b0}', '\u{5f3}', '\u{627}', '\u{644}', '\u{64e}', '\u{661}', '\u{6f1}', '\u{1c5}', '\u{130}', '\u{140}',
     '\u{1680}', '\u{2003}', '\u{200a}', '\u{200c}', '\u{200d}', '\u{94d}', '\u{915}', '\u{3000}', '\u{ff21}', '\u{ff76}', '\u{ff9e}', '\u{ffe0}',
     '\u{30fb}', '\u{30a2}', '\u{4e2d}', '\u{1f88}', '\u{212b}', '\u{13a0}', '\u{a9c0}', '\u{2163}', '\u{221e}',
-    '\u{3131}', '\u{ffa1}', '\u{1100}', '\u{3c3}', 'J', '\u{30c}',
+    '\u{3131}', '\u{ffa1}', '\u{1100}', '\u{3c3}', 'J', '\u{30c}', 'L',
+    // supplementary code points whose low 16 bits equal a mapped / space / contextual BMP code point
+    '\u{1ff21}', '\u{23000}', '\u{1ff76}', '\u{100a0}', '\u{1200a}', '\u{100b7}', '\u{1200d}',
     '\u{1f600}', '\u{10900}', '\u{1e922}', '\u{e0001}', '\u{10ffff}',
 ];
 
